@@ -331,6 +331,11 @@ type c18Read struct {
 	// ExactBuf: the caller's read buffer is exactly as long as the longest payload to be delivered (instead of 2048): a
 	// datagram that fits the buffer is returned whole, whatever the size of its IP header
 	ExactBuf bool `json:"exact_buf,omitempty"`
+	// ShortBy > 0: the caller's buffer is that many octets SHORTER than the longest payload (a caller with a small
+	// buffer): like any datagram socket, the read hands over what fits — never more than the buffer holds, always a
+	// leading part of the payload, and it does not fail or crash. SpareCap: the buffer is the front of a larger array.
+	ShortBy  int  `json:"short_by,omitempty"`
+	SpareCap bool `json:"spare_cap,omitempty"`
 }
 
 type c18Deliver struct {
@@ -461,9 +466,23 @@ var c18r = newChk("C18", "read-sequence",
 				bufLen = max(bufLen, len(w.payload))
 			}
 		}
+		if c.ShortBy > 0 {
+			bufLen = 0
+			for _, w := range want {
+				bufLen = max(bufLen, len(w.payload))
+			}
+			bufLen = max(0, bufLen-c.ShortBy)
+		}
+		next := 0 // ShortBy: index of the first expected datagram not yet accounted for
 		for i := 0; ; i++ {
 			buf := make([]byte, bufLen)
+			if c.SpareCap {
+				buf = make([]byte, bufLen+64)[:bufLen]
+			}
 			n, addr, err := conn.ReadFrom(buf)
+			if n > len(buf) {
+				return obs.Failf("C18/read/count-beyond-buffer", fmt.Sprintf("at most %d octets", len(buf)), "n=%d", n)
+			}
 			if err != nil && n != 0 {
 				return obs.Failf("C18/read/error-with-data", "no data together with an error", "n=%d err=%v", n, err)
 			}
@@ -471,10 +490,27 @@ var c18r = newChk("C18", "read-sequence",
 				if !errors.Is(err, io.EOF) {
 					return obs.Failf("C18/read/error", "io.EOF after the last frame", "%v", err)
 				}
-				if i != len(want) {
+				if i != len(want) && c.ShortBy == 0 {
 					return obs.Failf("C18/read/missing", fmt.Sprintf("%d datagrams delivered", len(want)), "%d (EOF early)", i)
 				}
 				break
+			}
+			if c.ShortBy > 0 {
+				// a datagram that does not fit the caller's buffer is handed over cut to the buffer's size or not at all
+				// (the frame itself may not have fitted the connection's own read): what IS delivered is, in arrival
+				// order, an expected datagram — whole if it fits, else exactly its leading len(buf) octets
+				k := next
+				for ; k < len(want); k++ {
+					p := want[k].payload
+					if (len(p) <= len(buf) && bytes.Equal(buf[:n], p)) || (len(p) > len(buf) && n == len(buf) && bytes.HasPrefix(p, buf[:n])) {
+						break
+					}
+				}
+				if k == len(want) {
+					return obs.Failf("C18/read/short-buffer", fmt.Sprintf("a datagram of the sequence, whole or cut to the %d-octet buffer", len(buf)), "%x (len %d)", clipb(buf[:n]), n)
+				}
+				next = k + 1
+				continue
 			}
 			if i >= len(want) {
 				return obs.Failf("C18/read/extra", fmt.Sprintf("only %d datagrams", len(want)), "extra datagram %x from %v", clipb(buf[:n]), addr)
@@ -516,6 +552,10 @@ func genC18Read() *rapid.Generator[c18Read] {
 			c.NoBound = true
 		}
 		c.ExactBuf = rapid.IntRange(0, 3).Draw(t, "exactbuf") == 0
+		if !c.ExactBuf && rapid.IntRange(0, 3).Draw(t, "shortbuf") == 0 {
+			c.ShortBy = rapid.SampledFrom([]int{1, 2, 8, 19, 20, 21, 39, 40, 41, 48, 300}).Draw(t, "shortby")
+		}
+		c.SpareCap = rapid.Bool().Draw(t, "sparecap")
 		n := rapid.IntRange(1, 30).Draw(t, "nframes")
 		for i := 0; i < n; i++ {
 			f := c18Frame{Kind: rapid.IntRange(0, 11).Draw(t, "kind"), IHL: rapid.SampledFrom([]int{5, 5, 5, 6, 7, 15}).Draw(t, "ihl"),
@@ -558,6 +598,10 @@ func TestC18_ReadTruncations(t *testing.T) {
 			g := f
 			g.DF = true
 			c18r.one(t, c18Read{BoundPt: 68, Frames: []c18Frame{f, g, f}})
+			// the caller's buffer shorter than the payload by every amount up to the largest IP header and a little more
+			for short := 1; short <= 64 && short <= plen; short++ {
+				c18r.one(t, c18Read{BoundPt: 68, Frames: []c18Frame{f, f}, ShortBy: short, SpareCap: short%2 == 0})
+			}
 		}
 		base := c18Frame{Kind: 0, IHL: ihl, Payload: bytes.Repeat([]byte{0xab}, 20), SrcIP: []byte{10, 0, 0, 1}, SrcPort: 67}
 		full, _ := base.build([4]byte{}, false, 68)
@@ -620,9 +664,12 @@ var c18seq = newChk("C18", "write-sequence",
 				p[k] = c.Fill + byte(k*7) + byte(i)
 			}
 			sent = append(sent, append([]byte{}, p...))
-			ip := net.IP(append([]byte{}, d.IP...))
-			if d.Dst16 {
-				ip = net.IPv4(d.IP[0], d.IP[1], d.IP[2], d.IP[3])
+			var ip net.IP // no address at all (the zero UDPAddr with a port): the unspecified address 0.0.0.0
+			if len(d.IP) == 4 {
+				ip = net.IP(append([]byte{}, d.IP...))
+				if d.Dst16 {
+					ip = net.IPv4(d.IP[0], d.IP[1], d.IP[2], d.IP[3])
+				}
 			}
 			if _, err := conn.WriteTo(p, &net.UDPAddr{IP: ip, Port: d.Port}); err != nil {
 				return obs.Failf("C18/sequence/write-error", "write succeeds", "write %d: %v", i, err)
@@ -658,6 +705,8 @@ var c18Pool = []c18Dest{
 	{IP: []byte{255, 255, 255, 255}, Port: 67},
 	{IP: []byte{255, 255, 255, 255}, Port: 68},
 	{IP: []byte{10, 0, 1, 0}, Port: 6767},
+	{IP: nil, Port: 67},
+	{IP: []byte{0, 0, 0, 0}, Port: 67},
 }
 
 func TestC18_WriteSequences(t *testing.T) {
@@ -698,7 +747,7 @@ func genC18Seq() *rapid.Generator[c18Seq] {
 			case 2:
 				d.Dst16 = true
 			case 3:
-				d.IP = []byte{255, 255, 255, 255}
+				d.IP = rapid.SampledFrom([][]byte{{255, 255, 255, 255}, nil, {0, 0, 0, 0}}).Draw(t, "special")
 			default:
 				d.Port ^= 1 << uint(rapid.IntRange(0, 15).Draw(t, "bit"))
 			}
